@@ -7,6 +7,7 @@ mod r#gen;
 mod c10;
 mod c11;
 mod c14;
+mod c16;
 
 use util::Args;
 
@@ -22,6 +23,7 @@ fn main() {
         "c10" => c10::run(&args),
         "c11" => c11::run(&args),
         "c14" => c14::run(&args),
+        "c16" => c16::run(&args),
         "c14ref" => c14::run_ref(&args),
         other => {
             eprintln!("unknown check {other}");
